@@ -246,6 +246,22 @@ struct JSONUtils {
                 }
 
                 default: {
+                    const SizeT32 code = SizeT32(ch);
+
+                    if (code < 0x20U) {
+                        // The remaining control characters have no short form: \u00XX
+                        stream.Write((content + offset2), (offset - offset2));
+                        offset2 = offset;
+                        ++offset2;
+
+                        stream += JSONotation::BSlashChar;
+                        stream += JSONotation::U_Char;
+                        stream += Char_T(DigitUtils::DigitChar::Zero);
+                        stream += Char_T(DigitUtils::DigitChar::Zero);
+                        stream += Char_T(DigitUtils::DigitChar::Zero + (code >> 4U));
+                        stream += Char_T(((code & 0xFU) < 10U) ? (DigitUtils::DigitChar::Zero + (code & 0xFU))
+                                                              : (DigitUtils::DigitChar::A + ((code & 0xFU) - 10U)));
+                    }
                 }
             }
 
